@@ -157,6 +157,10 @@ async fn scenario(head: Vec<String>, ops: Vec<Vec<String>>) -> Vec<String> {
     let mut out: Vec<String> = Vec::new();
     let mut sock: Option<AnySock> = Some(AnySock::new(&stype, None));
     let mut monitor = if with_mon { Some(sock_monitor(sock.as_mut().unwrap())) } else { None };
+    if head.iter().any(|h| h == "mondrop") {
+        // a monitor was asked for once and its receiver has been dropped since: nobody listens any more
+        drop(sock_monitor(sock.as_mut().unwrap()));
+    }
     let mut bound: Vec<Endpoint> = Vec::new();
     let mut raws: Vec<Option<Raw>> = Vec::new();
     let mut ipc_paths: Vec<std::path::PathBuf> = Vec::new();
